@@ -1194,12 +1194,13 @@ def evaluate__xml_to_json(self: XPathFunction, context: ta.ContextType = None) \
                     raise self.error('FOJS0006', msg)
 
                 value = ''.join(etree_iter_strings(child))
-                check_escapes(value)
 
                 escaped = child.get('escaped', '0').strip()
                 if escaped not in BOOLEAN_VALUES:
                     msg = f"{child} has an invalid value for 'escaped' attribute"
                     raise self.error('FOJS0006', msg)
+                elif escaped in ('true', '1'):
+                    check_escapes(value)  # a backslash is an ordinary character otherwise
 
                 value = escape_json_string(value, escaped in ('true', '1'))
                 chunks.append(f'"{value}"')
@@ -1223,12 +1224,12 @@ def evaluate__xml_to_json(self: XPathFunction, context: ta.ContextType = None) \
                         msg = f'object invalid key type {type(key)}'
                         raise self.error('FOJS0006', msg)
 
-                    check_escapes(key)
-
                     escaped_key = e.get('escaped-key', '0').strip()
                     if escaped_key not in BOOLEAN_VALUES:
                         msg = f"{e} has an invalid value for 'escaped-key' attribute"
                         raise self.error('FOJS0006', msg)
+                    elif escaped_key in ('true', '1'):
+                        check_escapes(key)
 
                     key = escape_json_string(key, escaped=escaped_key in ('true', '1'))
                     map_chunks.append(f'"{key}":{elem_to_json((e,))}')
@@ -1322,15 +1323,17 @@ def evaluate__json_to_xml(self: XPathFunction, context: ta.ContextType = None) \
             raise self.error('FOJS0005')
 
     def escape_string(s: str) -> str:
-        s = re.sub(r'\\(?!/)', r'\\\\', s)
+        # Special characters: the backslash, the controls (x00-x1F, x7F-x9F) and
+        # the code points that are not XML characters. The solidus is not one of them.
+        s = s.replace('\\', r'\\')
         s = s.replace('\b', r'\b'). \
             replace('\r', r'\r'). \
             replace('\n', r'\n'). \
             replace('\t', r'\t'). \
-            replace('\f', r'\f'). \
-            replace('/', r'\/')
+            replace('\f', r'\f')
         return ''.join(
-            x if is_xml_codepoint(ord(x)) else rf'\u{ord(x):04X}' for x in s
+            x if is_xml_codepoint(ord(x)) and not 0x7F <= ord(x) <= 0x9F
+            else rf'\u{ord(x):04X}' for x in s
         )
 
     def value_to_etree(v: Optional[ta.ItemType], **attrib: str) -> ElementProtocol:
